@@ -296,16 +296,38 @@ def jsonable(x):
 def finish(ctx, mod):
     prop = ctx.prop
     known = [e for e in load_known(prop) if e.get("status") == "open"]
-    known_keys = {e["key"]: e for e in known}
+
+    def entry_for(v):
+        """the open known finding that covers violation `v` (same key or key prefix, and its
+        `match` predicate - a Python expression over the case dict `p` - holds)"""
+        for e in known:
+            if "key" in e and e["key"] != v["key"]:
+                continue
+            if "key_prefix" in e and not v["key"].startswith(e["key_prefix"]):
+                continue
+            if "key" not in e and "key_prefix" not in e:
+                continue
+            m = e.get("match")
+            if m:
+                try:
+                    if not eval(m, {"__builtins__": {}}, {"p": v["case"] if isinstance(v["case"], dict) else {}}):
+                        continue
+                except Exception:
+                    continue
+            return e
+        return None
     rc = 0
     lines = []
-    new_viol = [v for v in ctx.violations if v["key"] not in known_keys]
+    new_viol = []
     seen_known = {}
     for v in ctx.violations:
-        if v["key"] in known_keys:
-            seen_known.setdefault(v["key"], v)
-    for k, v in sorted(seen_known.items()):
-        lines.append("KNOWN-FINDING: property=%s %s [%s]" % (prop, known_keys[k].get("what", v["what"]), k))
+        e = entry_for(v)
+        if e is None:
+            new_viol.append(v)
+        else:
+            seen_known.setdefault(e.get("id") or e.get("key") or e.get("key_prefix"), (e, v))
+    for k, (e, v) in sorted(seen_known.items()):
+        lines.append("KNOWN-FINDING: property=%s %s [%s]" % (prop, e.get("what", v["what"]), k))
     # one VIOLATION line per distinct key
     bykey = {}
     for v in new_viol:
